@@ -13,7 +13,9 @@ REPO = os.environ.get("VERIF_REPO", "/repo")
 SPEC = os.path.join(VERIF, "spec")
 HARNESS = os.path.join(VERIF, "harness")
 CACHE = os.path.join(VERIF, ".cache")
-EVIDENCE = os.path.join(VERIF, "evidence")
+# runs against a scratch copy of goNEAT (VERIF_REPO) never touch the committed evidence or the replay directory
+ALT = os.path.realpath(REPO) != "/repo"
+EVIDENCE = os.path.join(CACHE, "alt-evidence") if ALT else os.path.join(VERIF, "evidence")
 GOENV = {"GOFLAGS": "-mod=mod", "GOPROXY": "off", "GOSUMDB": "off", "GOTOOLCHAIN": "local"}
 CORES = os.cpu_count() or 4
 
@@ -80,7 +82,19 @@ class Ctx:
             raise Infra("cannot copy go.sum: %s" % e)
         os.makedirs(os.path.join(CACHE, "bin"), exist_ok=True)
         out = os.path.join(CACHE, "bin", "vh-%s-%d" % (key, os.getpid()))
-        cmd = ["go", "build", "-tags", "verif"] + (["-race"] if race else []) + ["-o", out, "./cmd/" + pkg]
+        modflag = []
+        if ALT:
+            # a scratch copy of goNEAT (VERIF_REPO): same harness module with the replace directive pointing there
+            alt = os.path.join(CACHE, "bin", "alt-%d.mod" % os.getpid())
+            with open(os.path.join(HARNESS, "go.mod")) as f:
+                mod = f.read().replace("=> /repo", "=> " + os.path.realpath(REPO))
+            with open(alt, "w") as f:
+                f.write(mod)
+            shutil.copy(os.path.join(REPO, "go.sum"), alt[:-4] + ".sum")
+            modflag = ["-modfile=" + alt]
+            self._vh["altmod"] = alt
+            self._vh["altsum"] = alt[:-4] + ".sum"
+        cmd = ["go", "build", "-tags", "verif"] + modflag + (["-race"] if race else []) + ["-o", out, "./cmd/" + pkg]
         p = subprocess.run(cmd, cwd=HARNESS, env=env, capture_output=True, text=True)
         if p.returncode != 0:
             raise Infra("harness build failed (a change to goNEAT altered an interface the harness binds to?):\n" + p.stderr[-4000:])
@@ -273,7 +287,7 @@ def finish(ctx, level="model_checking"):
         print("KNOWN-FINDING: property=%s %s" % (ctx.prop, k.get("what", sig)))
     code = 0
     if new:
-        rdir = os.path.join(VERIF, "replays")
+        rdir = os.path.join(CACHE, "alt-replays") if ALT else os.path.join(VERIF, "replays")
         os.makedirs(rdir, exist_ok=True)
         rp = os.path.join(rdir, "%s-%s-seed%d.json" % (ctx.prop, ctx.tier, ctx.seed))
         with open(rp, "w") as f:
